@@ -188,6 +188,8 @@ def mon_c02(im, p):
         if callable(v) and (id(v) in fn_ids or getattr(v, '__qualname__', '') == 'LambdaOp.eval.<locals>.f' or id(v) in host_ids):
             return
         seen_types.append(type(v).__name__)
+        seen_objs.append(v)
+    seen_objs = []
     fn_ids = {id(f) for f in ns.functions.FUNCTIONS.values()}
 
     def on_ret(node, r, state):
@@ -203,7 +205,10 @@ def mon_c02(im, p):
     if info is None:
         return {'fail': [], 'nontrivial': False}
     host_ids.update(info['host'].ids)
-    seen_types[:] = []
+    # what node evaluations returned DURING the run (e.g. a lambda parameter read inside a callback) counts too; host
+    # functions are recognised only now (their ids are known after the run)
+    during = [o for o in seen_objs if not (callable(o) and id(o) in host_ids)]
+    seen_types[:] = [type(o).__name__ for o in during]
     walk(info.get('result'), check)
     walk(info['names'], check)
     # second pass over node results happened during eval with host_ids empty: filter host functions now
@@ -255,7 +260,14 @@ def mon_c01_scen(im, p):
         names0 = dict(evalimpl.Host({}).fns)
         names0.update({k: D(v) if not isinstance(v, list) else [D(x) for x in v] for k, v in sc.get('names', {}).items()})
         if sc.get('reenter'):
-            names0['sub'] = lambda src, _p=p0: _p.eval(src, {})
+            # for COUNTING the outer program's nodes the helper is plain Python (its answers precomputed on another parser)
+            pre = {}
+            for m in re.finditer(r'sub\("([^"]*)"\)', sc['src']):
+                try:
+                    pre[m.group(1)] = sqimpl.Impl(ns).p.eval(m.group(1), {})
+                except Exception:
+                    pre[m.group(1)] = None
+            names0['sub'] = lambda src, _pre=pre: _pre.get(src)
         count = None
         with EvalTrace(ns) as tr:
             try:
@@ -263,8 +275,6 @@ def mon_c01_scen(im, p):
                 count = tr.entries
             except Exception:
                 pass
-        if sc.get('reenter'):
-            count = None       # the inner evaluation's nodes are counted too but charged to its own budget
         big = run(10 ** 6)[0]
         # K: smallest budget at which the program completes (found by bisection on a fresh parser each time is costly:
         # the same parser is the point of the scenario)
@@ -861,6 +871,31 @@ def mon_c09_chain(im, p):
     return {'fail': fails, 'nontrivial': True}
 
 
+def mon_c09_hof(im, p):
+    """inside the callback of map / filter / sorted / reduce every operand, call argument and branch is evaluated once PER
+    APPLICATION of the callback: sub-expressions that do not mention the parameter are not constants - they may read state a
+    helper changes, or call a builtin NAME that the host has bound to an effectful function (here: a counter)"""
+    fails = []
+    canon = lambda v: '[' + ', '.join(canon(x) for x in v) + ']' if isinstance(v, list) else str(v)
+    for src, rebound, exp in p['cases']:
+        n = [0]
+
+        def tick(*a):
+            n[0] += 1
+            return D(n[0])
+        names = dict(evalimpl.Host({}).fns)
+        for nm in rebound:
+            names[nm] = tick
+        try:
+            out = canon(im.p.eval(src, names, max_ops_evaluated=2000))
+        except Exception as e:
+            out = 'raised ' + type(e).__name__
+        if out != exp:
+            fails.append({'signature': 'callback-operand-not-per-application', 'what': f'{src!r} (host binds {rebound} to a counter) gives {out}, expected {exp}',
+                          'input': {'src': src, 'rebound': rebound}})
+    return {'fail': fails, 'nontrivial': True}
+
+
 # ------------------------------------------------------------------ C10
 def mon_c10(im, p):
     ns = im.ns
@@ -1177,7 +1212,7 @@ def mon_c12(im, p):
         # the host bound ONE object under g and h; once the program has assigned either name, that name holds a private copy
         pairs.append(('g', 'h'))
     for a, b in pairs:
-        if a in names and b in names and isinstance(names[a], (list, dict)) and isinstance(names[b], (list, dict)):
+        if a in names and b in names and isinstance(names[a], (list, dict, tuple)) and isinstance(names[b], (list, dict, tuple)):
             common = _reach_ids(names[a]) & _reach_ids(names[b])
             if common:
                 src = unhx(evalimpl.field(es, 'src')[0])
@@ -1206,6 +1241,27 @@ def _snap(v, seen=None):
 
 
 MUTATORS = ('push', 'pop', 'insert', 'remove', '__setitem__', '__setitem_with_op__', '__delitem__')
+
+
+def mon_c13_prog(im, p):
+    """whole programs that call a NON-mutating builtin on a host object reached through other calls (`sorted(reduce([a0], ...))`,
+    `reversed(ident(a0))`, ...): the host object bound as a0 is afterwards exactly what it was"""
+    ns = im.ns
+    fails = []
+    for line in p['lines']:
+        es = evalimpl.sread(line.split(' ', 1)[1])
+        src = unhx(evalimpl.field(es, 'src')[0])
+        host = evalimpl.Host({})
+        names0 = evalimpl.Reader(ns, host).val(evalimpl.field(es, 'names')[0])
+        before = _snap(names0.get('a0'))
+        out, extra, info = evalimpl.run_eval(im, es)
+        if info is None:
+            continue
+        after = _snap(info['names'].get('a0'))
+        if after != before:
+            fails.append({'signature': 'argument-modified-in-program', 'what': f'after {src!r} the host object a0 changed: {str(before)[:100]} -> {str(after)[:100]}',
+                          'input': {'line': line}})
+    return {'fail': fails[:5], 'nontrivial': True}
 
 
 def mon_c13(im, p):
